@@ -1,4 +1,6 @@
 import TaffyVerif.Drv.C02
+import TaffyVerif.Drv.C07
+import TaffyVerif.Drv.C19
 import TaffyVerif.Drv.C11
 import TaffyVerif.Drv.C10
 import TaffyVerif.Drv.C08
@@ -10,6 +12,8 @@ import TaffyVerif.Drv.C15
 
 def handlers : List (String × Handler) := [
   ("C02", DrvC02.handler),
+  ("C07", DrvC07.handler),
+  ("C19", DrvC19.handler),
   ("C11", DrvC11.handler),
   ("C10", DrvC10.handler),
   ("C08", DrvC08.handler),
